@@ -124,6 +124,13 @@ pub fn guarded<T>(f: impl FnOnce() -> T) -> Result<T, Verdict> {
 pub struct Obs {
     pub ticks: u64,
     pub tick_budget: u64,
+    /// when set (input length n): the step budget is also enforced as it goes,
+    /// ticks <= 64 * (n + bytes announced by Sym events) + 4096. Every tick site is per symbol,
+    /// per chunk / block / index record or per buffer refill, so a terminating decode stays far
+    /// below this; a loop that stops making progress is cut off after a few thousand iterations
+    /// instead of after the worst case the sink cap would allow
+    pub tick_input_len: Option<u64>,
+    pub sym_bytes: u64,
     pub tick_sites: [u64; 6],
     /// [state_before][kind] with kinds lit, match, shortrep, rep0..3, eos
     pub cells: [[u64; 8]; 12],
@@ -180,6 +187,8 @@ impl Default for Obs {
         Obs {
             ticks: 0,
             tick_budget: u64::MAX,
+            tick_input_len: None,
+            sym_bytes: 0,
             tick_sites: [0; 6],
             cells: [[0; 8]; 12],
             len_class: [0; 3],
@@ -246,6 +255,11 @@ impl Obs {
                 if self.ticks > self.tick_budget {
                     std::panic::panic_any(TickOverrunPayload(self.ticks));
                 }
+                if let Some(n) = self.tick_input_len {
+                    if self.ticks > 64u64.saturating_mul(n.saturating_add(self.sym_bytes)).saturating_add(4096) {
+                        std::panic::panic_any(TickOverrunPayload(self.ticks));
+                    }
+                }
             }
             Event::Sym {
                 kind,
@@ -256,6 +270,7 @@ impl Obs {
                 out_len,
             } => {
                 self.syms += 1;
+                self.sym_bytes += len as u64;
                 let k = match kind {
                     verif::SYM_LIT => 0,
                     verif::SYM_MATCH => 1,
